@@ -13,6 +13,19 @@ PRIM = "pymbolic.primitives"
 PH = "pymbolic.mapper.persistent_hash"
 
 
+# numpy scalar class hierarchy (numpy documentation, frozen): class -> classes
+# it covers
+NUMPY_SUBCLASSES = {
+    "generic": {"generic", "number", "bool_", "integer", "floating",
+                "complexfloating", "inexact", "signedinteger", "unsignedinteger"},
+    "number": {"number", "integer", "floating", "complexfloating", "inexact",
+               "signedinteger", "unsignedinteger"},
+    "bool_": {"bool_"},
+    "integer": {"integer", "signedinteger", "unsignedinteger"},
+    "inexact": {"inexact", "floating", "complexfloating"},
+}
+
+
 def run(ctx):
     model = ctx.model
     ctx.decide("pickled state = the field tuple only (generated __getstate__/"
@@ -190,6 +203,39 @@ def _digest(ctx, model):
                    f"{mem.owner.name}.{mem.node.name} walks {n.name}.{f} "
                    f"{verdict}: two equal nodes built with the keyword arguments "
                    "in a different order get different persistent keys")
+    # 2b. numpy scalars are normalised to Python scalars before repr(): the
+    # isinstance test must cover every numpy class that primitives registers as
+    # a constant class (equal constants np.True_ / True must give one digest)
+    prim = model.repo.module(PRIM)
+    registered = set()
+    for st in ast.walk(prim.tree):
+        if isinstance(st, ast.AugAssign) and ast.unparse(st.target) == \
+                "VALID_CONSTANT_CLASSES" and isinstance(st.value, ast.Tuple):
+            for e in st.value.elts:
+                if isinstance(e, ast.Attribute) and ast.unparse(e.value) in (
+                        "numpy", "np"):
+                    registered.add(e.attr)
+    mc = ph.members.get("map_constant")
+    covered = set()
+    if mc is not None and mc.kind == "func":
+        for c in ast.walk(mc.node):
+            if isinstance(c, ast.Call) and isinstance(c.func, ast.Name) and \
+                    c.func.id == "isinstance" and len(c.args) == 2:
+                classes = c.args[1].elts if isinstance(c.args[1], ast.Tuple) \
+                    else [c.args[1]]
+                for k in classes:
+                    if isinstance(k, ast.Attribute) and ast.unparse(k.value) in (
+                            "numpy", "np"):
+                        covered |= NUMPY_SUBCLASSES.get(k.attr, {k.attr})
+    missing = sorted(registered - covered)
+    if registered:
+        ctx.ob("T/digest/map_constant/numpy-normalised", not missing,
+               ph.loc(), f"numpy constants {sorted(registered)} are converted to "
+               "Python scalars before repr()" if not missing else
+               f"map_constant normalises numpy scalars with an isinstance test "
+               f"that does not cover numpy.{', numpy.'.join(missing)} (registered "
+               "as constant classes in primitives): equal constants such as "
+               "np.True_ and True then get different persistent keys")
     # 3. no use of hash()/id() anywhere in the class
     src = ast.unparse(ph.node)
     bad = [c for c in ast.walk(ph.node) if isinstance(c, ast.Call)
